@@ -93,6 +93,15 @@ def mutants(case):
             ({'kind': 'requote', 'elem': '~', 'attr': '~'}, lmfgen.to_xml(res, quote="'")),
             ({'kind': 'reorder', 'elem': '~', 'attr': '~'},
              lmfgen.to_xml(res, attr_order=lambda ps: list(reversed(ps))))]
+    # "every file produced by dump() is accepted": the document as wn itself writes it
+    try:
+        dp = d / 'redump.xml'
+        lmf.dump(lmf.load(base, progress_handler=None), dp)
+        muts.append(({'kind': 'redump', 'elem': '~', 'attr': '~'}, dp.read_text(encoding='utf-8')))
+    except JobTimeout:
+        raise
+    except Exception as e:
+        muts.append(({'kind': 'redump', 'elem': '~', 'attr': 'dump raised ' + exc_name(e)}, ''))
     muts += mutate.mutations(text, v, rng, per_kind=case.get('per_kind', 2))
     out = []
     for k, (m, txt) in enumerate(muts):
